@@ -116,6 +116,7 @@ fn pair(i: usize, a: &[u8], b: &[u8], sa: &Slot, sb: &Slot) -> Value {
         op!(o, i, "match_up_to", res(guarded(|| ua.match_up_to(ub)), |n| vec![1, n as i64]));
         op!(o, i, "ends_with", res(guarded(|| ua.ends_with(ub)), |x| vec![1, i64::from(x)]));
         op!(o, i, "path_join", res(guarded(|| ua.path_join(ub)), |s| some_bytes(s.as_slice())));
+        op!(o, i, "string_from_unixstr", res(guarded(|| UnixString::from(ub)), |s| some_bytes(s.as_slice())));
         op!(o, i, "parent_path", res(guarded(|| ub.parent_path().map(|s| s.as_slice().to_vec())), opt_string));
         op!(o, i, "path_file_name", res(guarded(|| ub.path_file_name().map(|s| s.as_slice().to_vec())), opt_string));
     }
@@ -181,9 +182,35 @@ fn dirent(dir: &str) {
     out.flush();
 }
 
+/// unix_lit! is evaluated at compile time; the literals below cover the empty string, separators,
+/// multi-byte UTF-8 and escapes.  Reports (content bytes of the literal, stored bytes).
+fn lits() {
+    use tiny_std::unix_lit;
+    let mut out = Out::new();
+    macro_rules! lit {
+        ($l:literal) => {
+            out.ev(&json!({"op": "unix_lit", "b": $l.as_bytes(), "out": some_bytes(unix_lit!($l).as_slice())}));
+        };
+    }
+    lit!("");
+    lit!("a");
+    lit!("/");
+    lit!("a/b");
+    lit!("//");
+    lit!("\u{e5}\u{1F600}");
+    lit!("tab\there");
+    lit!("0123456789abcdef0123456789abcdef0123456789abcdef0123456789abcdef/0123456789abcdef");
+    out.ev(&json!({"op": "unix_lit", "b": [], "out": some_bytes(UnixStr::EMPTY.as_slice())}));
+    out.flush();
+}
+
 fn main() {
     let args: Vec<String> = std::env::args().collect();
     quiet_panics();
+    if args[1] == "lits" {
+        lits();
+        return;
+    }
     if args[1] == "dirent" {
         dirent(&args[2]);
         return;
